@@ -20,6 +20,8 @@ Implementation: Tree-sitter node type matching, AST position arithmetic
 
 from typing import Any
 
+from .heuristics import count_code_lines_in_node
+
 
 def count_methods(class_node: Any) -> int:
     """Count number of methods in a TypeScript class.
@@ -50,11 +52,9 @@ def count_loc(class_node: Any, source: str) -> int:
         source: Full source code string
 
     Returns:
-        Number of lines in class definition
+        Number of code lines in class definition (excludes blank lines and comments)
     """
-    start_line = class_node.start_point[0]
-    end_line = class_node.end_point[0]
-    return end_line - start_line + 1
+    return count_code_lines_in_node(class_node, source)
 
 
 def _get_class_body(class_node: Any) -> Any:
